@@ -9,6 +9,16 @@ from . import pyextract as px
 from .vlib import COQ, Check, cps, uncps
 
 PID = "C13"
+CLAIM = dict(
+        text="Coq theorems over an executable model of dump_cookie / both parse_cookie levels: the escape table (a 256-value "
+             "sweep re-proved against the table regenerated from the source's regex and map on every run), value round trip "
+             "through both parsers for every token key and every Unicode scalar-value string, and no-injection of the emitted "
+             "value. The model is tied to the code by the regenerated tables/pattern pins and by differential execution "
+             "(extracted OCaml model vs werkzeug) on ~24k cases per quick run.",
+        note="Trusted: Coq kernel; translator tools/c13.py; ExtrOcamlBasic extraction + driver; hand-written matcher for _cookie_re "
+             "(validated differentially, header text without LF inside unquoted values); UTF-8 model; Domain/Path/Expires rendering "
+             "is an input of the attribute-assembly model; the test client's jar is covered by the harness only.",
+        design="6/C13")
 PINNED_COOKIE_RE = (
     '\n    ([^=;]*)\n    (?:\\s*=\\s*\n      (\n        "(?:[^\\\\"]|\\\\.)*"\n      |\n        .*?\n      )\n    )?\n    \\s*;\\s*\n    '
 )
